@@ -33,26 +33,15 @@ func (v *Verifier) newEnc(fn *ssa.Function, fc *FuncContract) *enc {
 		state: map[string]string{}, sorts: v.sorts, vers: map[string]int{}, vals: map[ssa.Value]Val{},
 		reach: map[*ssa.BasicBlock]string{}, exitSt: map[*ssa.BasicBlock]map[string]string{},
 		params: map[string]Val{}, dbg: map[string][]ssa.Value{}, callOrd: map[string]int{}, safeOrd: map[string]int{},
-		loopWrites: map[*ssa.BasicBlock]map[string]bool{}, tuples: map[ssa.Value][]Val{}, deferArgs: map[*ssa.Defer][]Val{}, iters: map[*ssa.Range]string{}}
+		loopWrites: map[*ssa.BasicBlock]map[string]bool{}, tuples: map[ssa.Value][]Val{}, deferArgs: map[*ssa.Defer][]Val{}, iters: map[*ssa.Range]string{},
+		writeIdx: map[*ssa.BasicBlock]map[string][]string{}, declSeq: map[string]int{}, allocd: map[string]bool{}}
 	e.safetyProps = v.safetyPropsFor(fn)
 	return e
 }
 
-func (e *enc) recordWrite(name string) {
-	if e.curBlock == nil {
-		return
-	}
-	for h, li := range e.loops {
-		if li.blocks[e.curBlock] {
-			if e.loopWrites[h] == nil {
-				e.loopWrites[h] = map[string]bool{}
-			}
-			e.loopWrites[h][name] = true
-		}
-	}
-}
+func (e *enc) havocAll() { e.havocAllN(true) }
 
-func (e *enc) havocAll() {
+func (e *enc) havocAllN(note bool) {
 	var names []string
 	for n := range e.sorts {
 		names = append(names, n)
@@ -63,9 +52,15 @@ func (e *enc) havocAll() {
 			// flags and local cells of this activation are not reachable by callees
 			continue
 		}
-		e.havoc(n)
+		if note {
+			e.havoc(n)
+		} else {
+			e.havocQuiet(n)
+		}
 	}
-	e.recordWrite("*")
+	if note {
+		e.noteWrite("*", "")
+	}
 	// the allocation frontier only grows
 }
 
@@ -116,10 +111,57 @@ func (e *enc) run() {
 		}
 	}
 	e.initSt = copyState(e.state)
+	e.entryLets = e.lets
 	// blocks
 	for _, b := range e.rpo() {
 		e.block(b)
 	}
+	e.finishFrames()
+}
+
+// finishFrames fills in the loop-frame facts: a location of an array-sorted state variable that
+// existed before the loop and is not written inside it keeps its pre-loop value at the loop head.
+// Only writes whose first-level index is loop-invariant (declared before the head) or a reference
+// allocated inside the loop can be excluded; any other write disables the fact for that variable.
+func (e *enc) finishFrames() {
+	for _, fr := range e.frames {
+		idxs := e.writeIdx[fr.head][fr.name]
+		ok := true
+		var excl []string
+		seen := map[string]bool{}
+		for _, t := range idxs {
+			if t == "*" {
+				ok = false
+				break
+			}
+			if e.allocd[t] && e.declSeq[t] > fr.headSeq {
+				continue // allocated inside the loop: not a pre-existing location
+			}
+			if !e.termInvariant(t, fr.headSeq) {
+				ok = false
+				break
+			}
+			if !seen[t] {
+				seen[t] = true
+				excl = append(excl, "(not (= fr.i "+t+"))")
+			}
+		}
+		if !ok {
+			continue
+		}
+		cond := and(append([]string{"(< fr.i " + fr.front + ")"}, excl...)...)
+		e.body[fr.line] = "(assert (forall ((fr.i Int)) (! (=> " + cond + " (= (select " + fr.post + " fr.i) (select " + fr.pre + " fr.i))) :pattern ((select " + fr.post + " fr.i)))))"
+	}
+}
+
+// termInvariant: every declared symbol occurring in the term was declared before sequence number seq.
+func (e *enc) termInvariant(t string, seq int) bool {
+	for _, tokn := range strings.FieldsFunc(t, func(r rune) bool { return r == '(' || r == ')' || r == ' ' }) {
+		if s, ok := e.declSeq[tokn]; ok && s > seq {
+			return false
+		}
+	}
+	return true
 }
 
 func (e *enc) assumeAllocated(v Val) {
@@ -333,9 +375,21 @@ func (e *enc) autoInvariants(h *ssa.BasicBlock, valOf func(phi *ssa.Phi) string)
 		if stepOK && init != nil {
 			out = append(out, "(>= "+valOf(phi)+" "+e.constVal(init).T+")")
 		}
+		// canonical lowering of `range` over a slice/array/string index: idx < len
+		if phi.Comment == "rangeindex" {
+			if ifi, ok := h.Instrs[len(h.Instrs)-1].(*ssa.If); ok {
+				if bo, ok := ifi.Cond.(*ssa.BinOp); ok && bo.Op == token.LSS {
+					if _, known := e.vals[bo.Y]; known || isConst(bo.Y) {
+						out = append(out, "(< "+valOf(phi)+" "+e.val(bo.Y).T+")")
+					}
+				}
+			}
+		}
 	}
 	return out
 }
+
+func isConst(v ssa.Value) bool { _, ok := v.(*ssa.Const); return ok }
 
 func (e *enc) loopHead(h *ssa.BasicBlock, li *loopInfo, entryPhi func(*ssa.Phi) string) {
 	inv, dec := e.loopClauses(li)
@@ -359,15 +413,21 @@ func (e *enc) loopHead(h *ssa.BasicBlock, li *loopInfo, entryPhi func(*ssa.Phi) 
 	}
 	// 2. havoc
 	if e.discover || e.loopWrites[h]["*"] {
-		e.havocAll()
+		e.havocAllN(false)
 	} else {
 		var names []string
 		for n := range e.loopWrites[h] {
 			names = append(names, n)
 		}
 		sort.Strings(names)
+		front := e.get("frontier")
 		for _, n := range names {
-			e.havoc(n)
+			pre := e.get(n)
+			post := e.havocQuiet(n)
+			if strings.HasPrefix(e.stateSort(n), "(Array Int ") {
+				e.frames = append(e.frames, frameRec{line: len(e.body), head: h, name: n, pre: pre, post: post, headSeq: e.seq, front: front, reach: e.curReach})
+				e.body = append(e.body, "(assert true)")
+			}
 		}
 	}
 	if _, ok := e.sorts["frontier"]; ok && (e.discover || e.loopWrites[h]["frontier"] || e.loopWrites[h]["*"]) {
